@@ -261,6 +261,7 @@ def run(ctx, P):
     r2.expiry_only_brought_forward(ctx, P, "C03f")
     r2.cache_update_rules(ctx, P, "C03g", want=("flush",))
     r2.compares_like_with_like(ctx, P, "C03h", fnames=("matches",))
+    r2.every_answer_reaches_the_cache(ctx, P, "C03i")
     clause_live_predicates(ctx, P)
     clause_ab(ctx, P)
     clause_c(ctx, P)
